@@ -14,7 +14,10 @@ Tie (what no model can replace):
      library) in every position where the compiler computes a common type, then called with each arity;
  (e) declaration structure: generated programs with forward functions (call graphs among the implementations, a use at every
      position) and structure mutants of the shipped programs (declarations moved, swapped, deleted, forwards duplicated):
-     what the compiler accepts must instantiate and run.
+     what the compiler accepts must instantiate and run;
+ (f) default values x every parameter-type form (generic functions with the generic inside containers and tuples; concrete,
+     generic-neutral, ill-typed defaults): every result of every accepted call has the shape of its static type and survives
+     a use according to that type.
 A corpus of minimised past failures (corpus/C01/*.case) runs first."""
 import glob
 from .common import *
@@ -852,7 +855,7 @@ def library_search(chk, per_overload):
             t = parse_type(r["type"])
         except ValueError:
             continue
-        f = followup_expr('$', t)
+        f = use_expr('$', t) or followup_expr('$', t)
         if f:
             follow.append((it[0] + " then " + f.replace('$', 'result'), it[1], f))
             if not isinstance(t, str) and t[0] == 'T' and len(t[1]) > 1:
@@ -1147,12 +1150,20 @@ def forward_program(rng):
         [f"let u = ({f}, 1);\n"],
         [f"let u = if(true, {f}, {rng.choice(names)})(1);\n"],
         [f"let u = [1, 2].map({f}).to_array();\n"],
+        # the use sits in a NESTED body, reached through a chain of wrappers defined at different times
+        [f"fn w(x: int)->int{{\n{f}(x) + 1\n}}\n", "fn via(x: int)->int{\nw(x) * 2\n}\n", "let u = via(1);\n"],
+        [f"fn w(x: int)->int{{\n{f}(x) + 1\n}}\n", "fn via(x: int)->int{\nfn inner(y: int)->int{\nw(y)\n}\ninner(x)\n}\n", "let u = via(1);\n"],
+        [f"fn via(x: int)->int{{\nlet k = (y: int)->{{{f}(y)}};\nk(x)\n}}\n", "let u = via(2);\n"],
+        [f"fn w()->int{{\n{f}(1)\n}}\n", "fn via()->int{\nw()\n}\n", "let u = via();\n"],
     ])
-    pos = rng.randrange(len(fwd) if rng.random() < 0.8 else 0, len(items) + 1)
-    if len(use) == 2 and rng.random() < 0.5:
-        pos2 = rng.randrange(pos, len(items) + 1)
-        items = items[:pos] + [use[0]] + items[pos:pos2] + [use[1]] + items[pos2:]
+    lo = len(fwd) if rng.random() < 0.8 else 0
+    if len(use) > 1 and rng.random() < 0.6:
+        # the pieces keep their order but are spread over the declaration list
+        cuts = sorted(rng.randrange(lo, len(items) + 1) for _ in use)
+        for piece, c in reversed(list(zip(use, cuts))):
+            items.insert(c, piece)
     else:
+        pos = rng.randrange(lo, len(items) + 1)
         items = items[:pos] + use + items[pos:]
     if rng.random() < 0.4:
         return "fn main0()->int{\n" + "".join(items) + "7\n}\nlet r = main0();\n", f"nested-k{k}"
@@ -1202,6 +1213,185 @@ def decl_part(chk, n_gen, n_mut):
             for c in r.get("calls", []):
                 if isinstance(c, str) and c.startswith("!tailcall"):
                     chk.violation("decl:tailcall-escaped", f"a zero-argument function of a {label} returned an unresolved tail call to the host", {"src": q["src"], "calls": q["calls"]})
+
+
+# ================================================================================================ defaults x parameter type forms
+
+def use_expr(name, t, depth=0):
+    """an expression that USES a value of static type t all the way down (members of tuples, elements of sequences, the
+    content of optionals): a value of another shape makes the interpreter fail here. None if t has no use."""
+    if isinstance(t, str):
+        return {'int': f'({name} + 1)', 'float': f'({name} + 1.0)', 'bool': f'(!{name})', 'str': f'{name}.len()'}.get(t)
+    if depth > 2 or '?' in ts(t):
+        return followup_expr(name, t)
+    if t[0] == 'T':
+        parts = [use_expr(f'{name}::item{i}', x, depth + 1) for i, x in enumerate(t[1])]
+        parts = [x for x in parts if x]
+        if not parts:
+            return None
+        return '(' + ', '.join(parts) + (',' if len(parts) == 1 else '') + ')'
+    if t[0] == 'F':
+        return None
+    if t[0] != 'N':
+        return None
+    if t[1] in ('Sequence', 'Optional') and t[2]:
+        v = f'v{depth}'
+        inner = use_expr(v, t[2][0], depth + 1)
+        if inner:
+            pre = f'{name}.take(3)' if t[1] == 'Sequence' else name
+            post = '.to_array()' if t[1] == 'Sequence' else ''
+            return f'{pre}.map(({v}: {ts(t[2][0])})->{{{inner}}}){post}'
+    return followup_expr(name, t)
+
+
+GD_INST = ['int', 'str', 'float', 'bool', SEQ('int'), ('T', ['int', 'str']), OPT('str')]
+GD_VALUE = {'int': ['7', '0', '2**64'], 'str': ['"abc"', '""', '"é"'], 'float': ['1.5', '0.0'], 'bool': ['true', 'false'],
+            'Sequence<int>': ['[1, 2]', 'range(3)', '[5].take(0)'], '(int, str)': ['(1, "a")'], 'Optional<str>': ['some("s")', 'if(false, some("q"), none())']}
+
+
+def gd_value(rng, t):
+    return rng.choice(GD_VALUE[ts(t)])
+
+
+def generic_default_program(rng):
+    """one function with a trailing optional parameter of some parameter-type form (a generic, a generic inside a container or
+    tuple, or a concrete type form) and a default that is concrete / generic-neutral / refers to an earlier parameter, and calls
+    that bind the generics to each instantiation through the other arguments, omitting or supplying the optional argument"""
+    ngen = rng.choice([0, 1, 1, 1, 2])
+    gens = ['T', 'U'][:ngen]
+    G = lambda n: ('G', n)
+    # required parameters: every generic occurs in one of them (directly or inside a container), so calls can bind it
+    req = [('flag', 'bool')]
+    for g in gens:
+        form = rng.choice(['plain', 'plain', 'seq', 'opt'])
+        req.append((f'a{g.lower()}', {'plain': G(g), 'seq': SEQ(G(g)), 'opt': OPT(G(g))}[form]))
+    if rng.random() < 0.4:
+        req.append(('n', rng.choice(['int', 'str'])))
+    # the optional parameter
+    if gens:
+        g = rng.choice(gens)
+        forms = [G(g), G(g), SEQ(G(g)), OPT(G(g)), ('T', [G(g), 'int'])]
+        if len(gens) == 2:
+            forms += [('T', [G('T'), G('U')]), SEQ(('T', [G('T'), G('U')]))]
+        ot = rng.choice(forms)
+    else:
+        ot = rng.choice(['int', 'str', 'float', 'bool', SEQ('int'), OPT('str'), ('T', ['int', 'str']), ('F', ['int'], 'int'), SEQ(SEQ('str'))])
+    inst0 = {g: rng.choice(GD_INST[:4]) for g in gens}
+
+    def value_of(t, b):
+        t = subst(t, b)
+        if isinstance(t, str):
+            return gd_value(rng, t)
+        if t[0] == 'T':
+            return '(' + ', '.join(value_of(x, b) for x in t[1]) + (',' if len(t[1]) == 1 else '') + ')'
+        if t[0] == 'F':
+            return '(q: int)->{q * 2}'
+        if ts(t) in GD_VALUE:
+            return gd_value(rng, t)
+        if t[1] == 'Sequence':
+            return '[' + value_of(t[2][0], b) + ']'
+        if t[1] == 'Optional':
+            return 'some(' + value_of(t[2][0], b) + ')'
+        return 'error("v")'
+    kind = rng.choice(['concrete', 'concrete', 'neutral', 'earlier', 'other-type'])
+    if kind == 'concrete':
+        dflt = value_of(ot, inst0)                       # right for one instantiation only (if the type is generic)
+    elif kind == 'neutral':
+        dflt = 'error("dflt")' if (isinstance(ot, str) or ot[0] in ('G', 'T', 'F')) else {'Sequence': '[]', 'Optional': 'none()'}.get(ot[1], 'error("dflt")')
+    elif kind == 'earlier':
+        dflt = req[-1][0]
+    else:
+        dflt = rng.choice(['0', '"s"', '[1]', 'some(1.5)', '(1, 2)', 'true'])
+    # the result mentions the optional parameter
+    body, ret = rng.choice([
+        ('opt', ot),
+        ('[opt, opt]', SEQ(ot)),
+        ('(opt, flag)', ('T', [ot, 'bool'])),
+        ('some(opt)', OPT(ot)),
+        ('if(flag, opt, opt)', ot),
+    ])
+    head = 'fn gd' + ('<' + ', '.join(gens) + '>' if gens else '') + '(' + ', '.join(f'{n}: {ts(t)}' for n, t in req) + f', opt: {ts(ot)} ?= {dflt})->{ts(ret)}' + '{\n' + body + '\n}\n'
+    lines = [head]
+    names = []
+    for i in range(rng.choice([4, 6, 8])):
+        b = {g: rng.choice(GD_INST) for g in gens}
+        args = [value_of(t, b) if n != 'flag' else rng.choice(['true', 'false']) for n, t in req]
+        if rng.random() < 0.4:
+            args.append(value_of(ot, b))
+        lines.append(f'let r{i} = gd(' + ', '.join(args) + ');\n')
+        names.append(f'r{i}')
+    return "".join(lines), names, f"{kind}-g{ngen}"
+
+
+def default_param_part(chk, n):
+    """default values x every parameter-type form (generic / generic inside a container / concrete): whatever declaration and
+    calls the compiler accepts, every result must have the shape of its static type and survive a use according to that type"""
+    rng = chk.rng
+    progs = [generic_default_program(rng) for _ in range(n)]
+    reqs = [{"op": "typing", "f": "run", "src": src, "get": names, "types": names, "limits": LIB_LIMITS[0]} for src, names, _ in progs]
+    resps = run_sliced(reqs)
+    second, smeta = [], []
+    for (src, names, tag), q, r in zip(progs, reqs, resps):
+        chk.evaluations += 1
+        f = fail_of(r)
+        if f:
+            chk.count(f"dflt:{tag}:{f[0]}")
+            report_failure(chk, "dflt", f"function with a defaulted parameter ({tag})", {"outcome": f[0], "detail": f[1], "src": src, "limits": q["limits"]}, {"get": names})
+            continue
+        if r.get("compile") != "ok":
+            # one ill-typed call must not hide the others: keep the calls that compile one by one
+            chk.count(f"dflt:{tag}:rejected")
+            lines = src.split("\n")
+            head_end = next(i for i, l in enumerate(lines) if l == "}") + 1
+            for l in lines[head_end:]:
+                if l.startswith("let "):
+                    n1 = l.split(" ")[1]
+                    second.append({"op": "typing", "f": "run", "src": "\n".join(lines[:head_end]) + "\n" + l + "\n", "get": [n1], "types": [n1], "limits": LIB_LIMITS[0]})
+                    smeta.append((tag + "-single", [n1]))
+            continue
+        chk.count(f"dflt:{tag}:accepted")
+        chk.nontrivial.add(src)
+        if r.get("inst") != "ok":
+            continue
+        second.append(q)
+        smeta.append((tag, names))
+    # judge every accepted program: shape of each binding, then a use of each binding according to its static type
+    uses, umeta = [], []
+    for (tag, names), q, r in zip(smeta, second, run_sliced([dict(x) for x in second]) if second else []):
+        f = fail_of(r)
+        if f:
+            report_failure(chk, "dflt", f"function with a defaulted parameter ({tag})", {"outcome": f[0], "detail": f[1], "src": q["src"], "limits": q["limits"]}, {"get": names})
+            continue
+        if r.get("compile") != "ok" or r.get("inst") != "ok":
+            continue
+        chk.count("dflt:judged-programs")
+        extra = []
+        for n1 in names:
+            dump, tt = r["vals"].get(n1), r.get("types", {}).get(n1)
+            if not dump or not tt or dump.startswith("!") or tt.startswith("!"):
+                continue
+            try:
+                t = parse_type(tt)
+            except ValueError:
+                continue
+            chk.count("shape:checked")
+            why = shape_ok(parse_dump(dump), t)
+            if why:
+                chk.violation(f"shape:dflt:{tag.split('-')[0]}", f"the result of a call that {'omits' if True else ''} or supplies a defaulted parameter does not have the shape of its static type {tt}: {why}; "
+                              f"binding {n1} = {dump[:120]}; program {q['src']!r}", {"src": q["src"], "get": [n1], "limits": q["limits"], "static_type": tt, "dump": dump})
+            u = use_expr(n1, t)
+            if u:
+                extra.append(f"let u_{n1} = {u};\n")
+        if extra:
+            uses.append({"op": "typing", "f": "run", "src": q["src"] + "".join(extra), "get": [], "types": [], "limits": LIB_LIMITS[0]})
+            umeta.append(tag)
+    for tag, q, r in zip(umeta, uses, run_sliced(uses) if uses else []):
+        chk.evaluations += 1
+        f = fail_of(r)
+        chk.count("dflt:use:" + (f[0] if f else ("ok" if r.get("compile") == "ok" else "rejected")))
+        if f:
+            report_failure(chk, "dflt-use", f"results of calls of a function with a defaulted parameter ({tag}) used according to their static types",
+                           {"outcome": f[0], "detail": f[1], "src": q["src"], "limits": q["limits"]})
 
 
 # ================================================================================================ (a) core fragment
@@ -1711,6 +1901,7 @@ def run(chk):
     t3 = time.time()
     script_search(chk, 500 if quick else 6000)
     decl_part(chk, 250 if quick else 3000, 350 if quick else 4000)
+    default_param_part(chk, 220 if quick else 3000)
     chk.coverage["seconds"] = {"corpus": round(t1 - t0, 1), "core": round(t2 - t1, 1), "library": round(t3 - t2, 1), "scripts": round(time.time() - t3, 1)}
     return chk.finish(rule="(a) generated core programs + near-miss mutants (one node changed: argument type, dropped/extra argument, index out of range, literal "
                            "type, unbound name, call of a non-function, condition type, declared result/parameter type): accept/reject and static types of the real "
